@@ -72,6 +72,12 @@ def candidates(rng, base):
             n2 = get(c, p)
             n2['k'] = 'choice' if node['k'] == 'seq' else 'seq'
             out.append(c)                                       # kind changed
+            for i in range(len(node['ps'])):
+                c = copy.deepcopy(base)
+                n2 = get(c, p)
+                n2['k'] = 'choice' if node['k'] == 'seq' else 'seq'
+                n2['ps'] = [n2['ps'][i]]
+                out.append(c)                                   # kind changed, one particle kept
             c = copy.deepcopy(base)
             get(c, p)['ps'].append(cm.E(rng.choice('abc'), rng.choice([(0, 1), (1, 1)])))
             out.append(c)                                       # particle added
